@@ -270,3 +270,16 @@ def run(ctx):
     round3.share(ctx, "R5.5", "C15", lambda i_: i_["rule"] == "R15.4" and i_["inst"].startswith("loom_init_end:"),
                  "index-table:", "threads are bound to, and counted on, the wrong CPU", 8)
     round3.check_cpu_recount_accepted(ctx, "R5.5")
+
+
+_run_base = run
+
+
+def run(ctx):
+    _run_base(ctx)
+    prog = ctx.prog
+    ctx.rule("R5.6", "a refused recount fails the event: the failure of cpu_update (oversubscription, a refused channel "
+             "write) is followed from every place that recounts - cpu_add/remove/migrate_thread, the life-cycle and "
+             "affinity handlers - to main's exit status")
+    from rules import round4
+    round4.check_cpu_update_failure_propagates(ctx, "R5.6")
